@@ -248,3 +248,12 @@ Proof. intros [[|]|z|b|s|b]; cbn; eauto. Qed.
 
 Lemma pre_object_defined : forall o, o <> OInvalid -> exists b, pre_object o = Ok b.
 Proof. intros [n|p|l|] H; cbn; eauto. - apply pre_literal_defined. - contradiction. Qed.
+
+(* objects of the same kind: injective as far as the component is *)
+Lemma pre_object_inj_same_kind_pred : forall p q, pre_object (OPred p) = pre_object (OPred q) ->
+  pid p = pid q /\ anchor_equiv (panchor p) (panchor q).
+Proof. intros p q H. cbn [pre_object] in H. apply Ok_inj in H. apply pre_pred_inj. exact H. Qed.
+
+Lemma pre_object_inj_same_kind_lit : forall a b, same_lit_type a b = true -> lit_in_range a = true -> lit_in_range b = true ->
+  pre_object (OLit a) = pre_object (OLit b) -> a = b.
+Proof. intros a b H1 H2 H3 H. cbn [pre_object] in H. exact (pre_literal_inj_same_type a b H1 H2 H3 H). Qed.
